@@ -193,7 +193,12 @@ func New(opt Options) (*Stack, error) {
 	}
 	srv := b.DefaultInteropServer()
 	srv.SetSandboxContext(sbCtx)
-	srv.SetInternalStateGetter(stateFn)
+	// the server asks for the internal state when it builds a completion message (FastInvoke's goroutine, right before
+	// the send into InvokeDoneChan): a driver-side pause point there, without a hook in /repo
+	srv.SetInternalStateGetter(func() statejson.InternalStateDescription {
+		gates.at("server.stateGetter")
+		return stateFn()
+	})
 	s := &Stack{Opt: opt, Rec: r, Sup: sup, Gates: gates, Srv: srv, API: b.LambdaInvokeAPI(), State: stateFn, Addr: addr, Root: root,
 		HTTP:     &http.Client{Transport: &http.Transport{DisableKeepAlives: true, MaxIdleConns: 0}},
 		bodies:   map[string]string{},
@@ -620,7 +625,7 @@ func (s *Stack) RtResponse(p *Proc, who, idClass string, body []byte, hdr map[st
 	id := s.ResolveID(idClass)
 	lbl := s.noteBody(body, "")
 	cid := s.Rec.Emit(a, "RespCall", "who", a, "gen", gen(p), "id", idClass, "reqid", id, "size", len(body), "body", lbl,
-		"slow", hdr["X-Verif-Slow-Body"], "abort", hdr["X-Verif-Abort-Body"] != "", "mode", modeClass(hdr["Lambda-Runtime-Function-Response-Mode"]))
+		"slow", hdr["X-Verif-Slow-Body"], "abort", hdr["X-Verif-Abort-Body"] != "", "detached", hdr["X-Verif-Detached"] != "", "mode", modeClass(hdr["Lambda-Runtime-Function-Response-Mode"]))
 	r := s.do(p, "POST", "/2018-06-01/runtime/invocation/"+id+"/response", hdr, body)
 	s.Rec.Emit(a, "RespRet", "cid", cid, "who", a, "gen", gen(p), "id", idClass, "reqid", id, "status", r.Status, "errType", r.ErrType, "net", r.NetErr)
 	return r
@@ -647,7 +652,7 @@ func (s *Stack) RtError(p *Proc, who, idClass, errType string, body []byte, hdr 
 	}
 	lbl := s.noteBody(body, "")
 	cid := s.Rec.Emit(a, "ErrCall", "who", a, "gen", gen(p), "id", idClass, "reqid", id, "size", len(body), "errType", errType, "body", lbl,
-		"slow", hdr["X-Verif-Slow-Body"], "abort", hdr["X-Verif-Abort-Body"] != "")
+		"slow", hdr["X-Verif-Slow-Body"], "abort", hdr["X-Verif-Abort-Body"] != "", "detached", hdr["X-Verif-Detached"] != "")
 	r := s.do(p, "POST", "/2018-06-01/runtime/invocation/"+id+"/error", h, body)
 	s.Rec.Emit(a, "ErrRet", "cid", cid, "who", a, "gen", gen(p), "id", idClass, "reqid", id, "status", r.Status, "errType", r.ErrType, "net", r.NetErr)
 	return r
